@@ -33,6 +33,7 @@ func (m *Mutex) Unlock() {
 		panic("sync: unlock of unlocked mutex")
 	}
 	m.locked = false
+	UnlockPoint("Mutex.Unlock")
 }
 
 // RWMutex mirrors sync.RWMutex including Go's writer preference: once a writer is waiting, new readers block.
@@ -54,6 +55,7 @@ func (m *RWMutex) RUnlock() {
 		panic("sync: RUnlock of unlocked RWMutex")
 	}
 	m.readers--
+	UnlockPoint("RWMutex.RUnlock")
 }
 
 // Lock takes the write lock.
@@ -85,6 +87,7 @@ func (m *RWMutex) Unlock() {
 		panic("sync: Unlock of unlocked RWMutex")
 	}
 	m.writer = false
+	UnlockPoint("RWMutex.Unlock")
 }
 
 // RLocker mirrors sync.RWMutex.RLocker.
